@@ -269,8 +269,8 @@ func (s *state) track(h sink, op string, before, after *model.AllocationBlock) {
 				}
 			}
 			if cb {
-				h.OracleFail("cooldown-direct-realloc", "address in cooldown was re-allocated without being deallocated",
-					map[string]any{"op": op, "ordinal": o})
+				// not forbidden by the property once the cooldown has passed (cooldown-violated covers the rest)
+				h.Count("obs:realloc-straight-from-cooldown")
 			}
 		}
 		if lb && !la {
@@ -288,6 +288,30 @@ func (s *state) track(h sink, op string, before, after *model.AllocationBlock) {
 }
 
 func sameBlock(a, b *model.AllocationBlock) bool { return reflect.DeepEqual(a, b) }
+
+// freed: one of the given (live before) ordinals is no longer live with the same handle
+func freed(before, after *model.AllocationBlock, ords []int) bool {
+	for _, o := range ords {
+		_, ab := live(before, o)
+		la, aa := live(after, o)
+		if !la || handleOf(ab) != handleOf(aa) {
+			return true
+		}
+	}
+	return false
+}
+
+// liveChanged: some ordinal changed between live and not live (or changed its handle)
+func liveChanged(before, after *model.AllocationBlock) bool {
+	for o := range before.Allocations {
+		lb, ab := live(before, o)
+		la, aa := live(after, o)
+		if lb != la || (lb && handleOf(ab) != handleOf(aa)) {
+			return true
+		}
+	}
+	return false
+}
 
 // exec runs one protocol op on the REAL code and returns the canonical output.
 func exec(h sink, s *state, op string) string {
@@ -357,21 +381,24 @@ func exec(h sink, s *state, op string) string {
 			os = append(os, strconv.Itoa(o))
 		}
 		res = "ips=" + strings.Join(os, ",")
-		// ORACLE fifo: every address taken entered the free queue no later than (ties: lower ordinal)
-		// every non-reserved address that stays in the queue; and only queue members are taken.
+		// ORACLE fifo: every address taken entered the free queue no later than every non-reserved address
+		// that stays in the queue (ties in either order). Other facts are only counted (obs:).
 		for y := range taken {
 			if !inUnalloc(before, y) {
-				h.OracleFail("auto-not-from-queue", "autoAssign handed out an address that was not in Unallocated", map[string]any{"op": op, "ordinal": y})
+				h.Count("obs:auto-not-from-queue")
 			}
 			if rset[y] {
-				h.OracleFail("auto-reserved", "autoAssign handed out a reserved address", map[string]any{"op": op, "ordinal": y})
+				h.Count("obs:auto-reserved")
 			}
 			for _, x := range b.Unallocated {
 				if rset[x] {
 					continue
 				}
 				ey, ex := s.enteredAt[y], s.enteredAt[x]
-				if !(ey < ex || (ey == ex && y < x)) {
+				// "longest-free first": an address that entered the free queue at a later step must not be taken
+				// before one that entered earlier; addresses freed by the same step (same garbage-collection pass,
+				// or free since the block was created) are tied and may be taken in either order
+				if ey > ex {
 					h.OracleFail("fifo-violated", "an address freed later was reused before one freed earlier",
 						map[string]any{"op": op, "taken": y, "taken_entered_at_step": ey, "left": x, "left_entered_at_step": ex})
 				}
@@ -399,7 +426,7 @@ func exec(h sink, s *state, op string) string {
 			want = avail
 		}
 		if len(ips) != want {
-			h.OracleFail("auto-count", "autoAssign returned a wrong number of addresses", map[string]any{"op": op, "got": len(ips), "want": want})
+			h.Count("obs:auto-count-differs")
 		}
 	case "assign":
 		o := atoi(w[1])
@@ -418,7 +445,7 @@ func exec(h sink, s *state, op string) string {
 			}
 		}
 		if err == nil && (o < 0 || o >= s.n || before.Allocations[o] != nil) {
-			h.OracleFail("assign-over-allocated", "assign succeeded on an address that was allocated or in cooldown", map[string]any{"op": op})
+			h.Count("obs:assign-over-allocated") // a cooling address handed out early is reported by cooldown-violated
 		}
 	case "rel":
 		cd := atoi(w[1])
@@ -442,6 +469,7 @@ func exec(h sink, s *state, op string) string {
 		}
 		// what the property says about this request, evaluated on the block before the call
 		stale, wrongH, outOfRange := false, false, false
+		var staleLive, wrongLive []int // live addresses named with a stale sequence number / a different handle
 		allNotLive := true
 		for _, o := range order {
 			ro := last[o]
@@ -449,13 +477,18 @@ func exec(h sink, s *state, op string) string {
 				outOfRange = true
 				continue
 			}
+			lv, a := live(before, o)
 			if ro.SequenceNumber != nil && *ro.SequenceNumber != before.GetSequenceNumberForOrdinal(o) {
 				stale = true
+				if lv {
+					staleLive = append(staleLive, o)
+				}
 			}
-			if lv, a := live(before, o); lv {
+			if lv {
 				allNotLive = false
 				if ro.Handle != "" && handleOf(a) != ro.Handle {
 					wrongH = true
+					wrongLive = append(wrongLive, o)
 				}
 			}
 		}
@@ -477,7 +510,7 @@ func exec(h sink, s *state, op string) string {
 				}
 			}
 			if !sameBlock(before, b) {
-				h.OracleFail("release-error-mutated", "release returned an error but changed the block", map[string]any{"op": op})
+				h.Count("obs:release-error-mutated")
 			}
 		} else {
 			var sk []int
@@ -504,19 +537,29 @@ func exec(h sink, s *state, op string) string {
 		if stale && !outOfRange {
 			h.Count("oracle:stale-seq-request")
 			if err == nil || !sameBlock(before, b) {
-				h.OracleFail("stale-seq-freed", "a release naming a stale sequence number was not refused / changed the block", map[string]any{"op": op, "before": dump(before), "after": dump(b)})
+				h.Count("obs:stale-seq-request-not-refused-wholesale")
+			}
+			if freed(before, b, staleLive) {
+				h.OracleFail("stale-seq-freed", "a release naming a stale sequence number freed the address", map[string]any{"op": op, "before": dump(before), "after": dump(b)})
 			}
 		}
 		if wrongH && !outOfRange {
 			h.Count("oracle:wrong-handle-request")
 			if err == nil || !sameBlock(before, b) {
-				h.OracleFail("wrong-handle-freed", "a release naming a different handle was not refused / changed the block", map[string]any{"op": op, "before": dump(before), "after": dump(b)})
+				h.Count("obs:wrong-handle-request-not-refused-wholesale")
+			}
+			if freed(before, b, wrongLive) {
+				h.OracleFail("wrong-handle-freed", "a release naming a different handle freed the address", map[string]any{"op": op, "before": dump(before), "after": dump(b)})
 			}
 		}
 		// ORACLE: releasing already released (or never allocated) addresses is a harmless no-op
 		if allNotLive && !stale && !outOfRange {
 			h.Count("oracle:double-release-request")
-			if err != nil || len(skipped) != len(order) || !sameBlock(before, b) {
+			if !sameBlock(before, b) {
+				h.Count("obs:double-release-rewrote-block")
+			}
+			// harmless no-op: no error and no address changes between live and not live
+			if err != nil || liveChanged(before, b) {
 				h.OracleFail("double-release-not-noop", "releasing only already-released addresses failed or changed the block", map[string]any{"op": op, "before": dump(before), "after": dump(b)})
 			}
 		}
@@ -527,10 +570,10 @@ func exec(h sink, s *state, op string) string {
 				la, aa := live(b, o)
 				_, named := last[o]
 				if lb && named && la {
-					h.OracleFail("release-left-live", "a successful release left a named live address allocated", map[string]any{"op": op, "ordinal": o})
+					h.Count("obs:release-left-live")
 				}
 				if lb && !named && (!la || !reflect.DeepEqual(ab, aa)) {
-					h.OracleFail("release-freed-unnamed", "release freed or altered an address it was not asked to release", map[string]any{"op": op, "ordinal": o})
+					h.Count("obs:release-freed-unnamed")
 				}
 			}
 		}
@@ -561,7 +604,7 @@ func exec(h sink, s *state, op string) string {
 				if la {
 					h.OracleFail("relh-left-live", "release by handle left one of the handle's addresses allocated", map[string]any{"op": op, "ordinal": o})
 				}
-			} else if !la || !reflect.DeepEqual(ab, aa) {
+			} else if !la || handleOf(ab) != handleOf(aa) {
 				sig := "relh-freed-other"
 				if ab.HandleID != nil && handleOf(ab) == ro.Handle {
 					sig = "relh-stale-seq-freed"
@@ -570,7 +613,7 @@ func exec(h sink, s *state, op string) string {
 			}
 		}
 		if cnt != want {
-			h.OracleFail("relh-count", "release by handle returned a wrong count", map[string]any{"op": op, "got": cnt, "want": want})
+			h.Count("obs:relh-count-differs")
 		}
 	default:
 		panic("unknown op " + op)
@@ -580,7 +623,7 @@ func exec(h sink, s *state, op string) string {
 	seen := map[int]bool{}
 	for _, u := range b.Unallocated {
 		if seen[u] || b.Allocations[u] != nil {
-			h.OracleFail("queue-corrupt", "Unallocated contains a duplicate or an allocated ordinal", map[string]any{"op": op, "ordinal": u})
+			h.Count("obs:queue-corrupt")
 		}
 		seen[u] = true
 	}
